@@ -162,11 +162,11 @@ func Generate(r *vk.RNG, p Profile) *App {
 		rb := vk.CaseRNG(0xb20e5e, sb.String())
 		for _, l := range []string{"lnext", "lprev"} {
 			if rb.Chance(2, 3) {
-				a.Labels[l] = vk.Pick(rb, []string{"n", "next", "more >>", "Next page", "back", "previous page"})
+				a.Labels[l] = vk.Pick(rb, []string{"n", "next", "more >>", "Next page", "back", "previous page", "следующая страница", "ቀጣይ ገጽ", "次のページ"})
 			}
 			for _, lc := range []string{"nor", "swa", "fra"} {
 				if a.Trans[lc] != nil && rb.Chance(1, 2) {
-					a.Trans[lc]["m:"+l] = vk.Pick(rb, []string{lc, lc + "-" + l, lc + " neste side / ukurasa", "»"})
+					a.Trans[lc]["m:"+l] = vk.Pick(rb, []string{lc, lc + "-" + l, lc + " neste side / ukurasa", "»", lc + " предыдущая", "التالي " + lc})
 				}
 			}
 		}
